@@ -14,6 +14,9 @@ CONSTANTS
   SNames = {"d1"}
   Alpha <- AlphaQ
   ParamSites = {"clients", "it"}
+  XUses <- XUsesQ
+  XParams = {"x1"}
+  XVals <- XValsQ
   NumParams = {"p1"}
   StrParams = {"q1"}
   SupVals = {0, 2}
